@@ -3,3 +3,7 @@ from . import arbiter
 
 def main(tier):
     return arbiter.main("C09", tier)
+
+
+def replay(path):
+    return arbiter.replay(path)
